@@ -368,6 +368,29 @@ def handleChord (w : Waiting) (g : ChordsGroup) (queued : List Queued) (aq : Act
         let aq := decomposeChord w g queued aq
         finish w aq (.noOp, .noOp)
 
+/-- the action selection of the `TapDance` arm of `tick_wt`:
+`tds.actions[min(num_taps, len).saturating_sub(1)]` (`none` = index out of bounds) -/
+def tdPick (actions : List Action) (numTaps : Nat) : Option Action :=
+  actions[min numTaps actions.length - 1]?
+
+/-- the `TapDance` arm of `WaitingState::tick_wt` (`w` already has its countdown advanced): the
+count and eviction of `handle_tap_dance`, then the chosen action is stored in `tap`, the countdown
+restarts if the count grew, and the new count is stored in the configuration -/
+def tickWtTd (w : Waiting) (actions : List Action) (tdTimeout tdNumTaps : Nat) (queued : List Queued) :
+    Except Crash (Waiting × List Queued × Option WAct) :=
+  match handleTapDance w tdNumTaps actions.length queued with
+  | (queued, none, numTaps) =>
+    .ok ({ w with prevQueueLen := queued.length % 256,
+                  timeout := if numTaps > tdNumTaps then tdTimeout else w.timeout,
+                  config := .tapDance actions tdTimeout numTaps }, queued, none)
+  | (queued, some r, numTaps) =>
+    match tdPick actions numTaps with
+    | none => .error (.indexOOB "tap-dance actions")
+    | some a =>
+      .ok ({ w with prevQueueLen := queued.length % 256, tap := a,
+                    timeout := if numTaps > tdNumTaps then tdTimeout else w.timeout,
+                    config := .tapDance actions tdTimeout numTaps }, queued, some r)
+
 /-- `WaitingState::tick_wt` -/
 def tickWt (w : Waiting) (queued : List Queued) (aq : ActionQueue) :
     Except Crash (Waiting × List Queued × ActionQueue × Option (WAct × Option (List Coord))) :=
@@ -377,20 +400,9 @@ def tickWt (w : Waiting) (queued : List Queued) (aq : ActionQueue) :
     let (w, r) := handleHoldTap w htc queued
     .ok (w, queued, aq, r.map (·, none))
   | .tapDance actions tdTimeout tdNumTaps =>
-    let (queued, ret, numTaps) := handleTapDance w tdNumTaps actions.length queued
-    let w := { w with prevQueueLen := queued.length % 256 }
-    let wE : Except Crash Waiting :=
-      if ret.isSome then
-        match actions[min numTaps actions.length - 1]? with
-        | some a => .ok { w with tap := a }
-        | none => .error (.indexOOB "tap-dance actions")
-      else .ok w
-    match wE with
+    match tickWtTd w actions tdTimeout tdNumTaps queued with
     | .error c => .error c
-    | .ok w =>
-      let w := if numTaps > tdNumTaps then { w with timeout := tdTimeout } else w
-      let w := { w with config := .tapDance actions tdTimeout numTaps }
-      .ok (w, queued, aq, ret.map (·, none))
+    | .ok (w, queued, ret) => .ok (w, queued, aq, ret.map (·, none))
   | .chord g =>
     match handleChord w g queued aq with
     | (w, queued, aq, some (r, a, pq)) => .ok ({ w with tap := a }, queued, aq, some (r, some pq))
@@ -472,6 +484,14 @@ structure TDE where
   deriving Repr, Inhabited
 
 def TDE.isExpired (t : TDE) : Bool := t.timeout == 0 || t.numTaps ≥ t.actions.length
+/-- `tick_tde` -/
+def TDE.tick (t : TDE) : TDE := { t with timeout := t.timeout - 1 }
+/-- `incr_taps` -/
+def TDE.incrTaps (t : TDE) : TDE := { t with numTaps := t.numTaps + 1, timeout := t.origTimeout }
+/-- `set_expired` -/
+def TDE.setExpired (t : TDE) : TDE := { t with timeout := 0 }
+/-- the eager tap-dance step of `tick`: count down, forget the state once expired -/
+def tdeTick (t : TDE) : Option TDE := if t.tick.isExpired then none else some t.tick
 
 /-! ## The layout -/
 
@@ -740,6 +760,15 @@ def armWait (s : Layout) (coord : Coord) (delay timeout : Nat) (config : WCfg) (
       config, layerStack, prevQueueLen := 255 }
   { s with waiting := some w }
 
+/-- the bookkeeping of the eager `TapDance` arm before its first action runs: a fresh eager state
+unless one for the same coordinate exists -/
+def armEager (s : Layout) (coord : Coord) (actions : List Action) (timeout : Nat) : Layout :=
+  let s := updateCoord s coord
+  let fresh : TDE := { coord, actions, timeout, origTimeout := timeout, numTaps := 1 }
+  match s.tapDanceEager with
+  | none => { s with tapDanceEager := some fresh }
+  | some tde => if tde.coord != coord then { s with tapDanceEager := some fresh } else s
+
 /-- one-shot bookkeeping after the inner action of the `OneShot` arm; returns the overflowing key -/
 def armOneShotPost (s : Layout) (action : Action) (coord : Coord) (timeout : Nat) (endConfig : OneShotEnd) :
     Layout × Option Coord :=
@@ -832,11 +861,7 @@ mutual
           if layerStack.length > MAX_ACTIVE_LAYERS then .error .layerStackOverflow else
           .ok (armWait s coord delay timeout (.tapDance actions timeout 1) layerStack, .noEvent)
         else
-          let s := updateCoord s coord
-          let fresh : TDE := { coord, actions, timeout, origTimeout := timeout, numTaps := 1 }
-          let s := match s.tapDanceEager with
-            | none => { s with tapDanceEager := some fresh }
-            | some tde => if tde.coord != coord then { s with tapDanceEager := some fresh } else s
+          let s := armEager s coord actions timeout
           match actions[0]? with
           | none => .error (.indexOOB "td.actions[0]")
           | some a0 =>
@@ -924,11 +949,9 @@ mutual
             | none => throw (.indexOOB "tde.actions[num_taps]")
             | some a =>
               let (s, cu) ← doAction fuel s a c q.since false (order.drop 1)
-              let s := { s with tapDanceEager := s.tapDanceEager.map fun t =>
-                { t with numTaps := t.numTaps + 1, timeout := t.origTimeout } }
-              pure (s, cu)
+              pure ({ s with tapDanceEager := s.tapDanceEager.map TDE.incrTaps }, cu)
           else
-            let s := if c.1 == 0 then { s with tapDanceEager := some { tde with timeout := 0 } } else s
+            let s := if c.1 == 0 then { s with tapDanceEager := some tde.setExpired } else s
             doAction fuel s .trans c q.since false order
         | none => doAction fuel s .trans c q.since false order
 
@@ -1098,9 +1121,7 @@ def tickPre (s : Layout) : Layout :=
   let s := { s with queue := s.queue.map fun (q : Queued) => { q with since := min (q.since + 1) U16_MAX } }
   let s := { s with lptTapHoldTimeout := s.lptTapHoldTimeout - 1 }
   let s := match s.tapDanceEager with
-    | some tde =>
-      let tde := { tde with timeout := tde.timeout - 1 }
-      if tde.isExpired then { s with tapDanceEager := none } else { s with tapDanceEager := some tde }
+    | some tde => { s with tapDanceEager := tdeTick tde }
     | none => s
   let s := processSequences s
   { s with histKeys := histTick s.histKeys, histInputs := histTick s.histInputs }
